@@ -262,3 +262,138 @@ Proof.
   - destruct F as [[[[[F1 F2] F3] F4] F5] F6]. repeat split; try lia.
   - destruct G as [[G1 G2] G3]. repeat split; try lia.
 Qed.
+
+(* ================= the server-side connection sends, the client receives ================= *)
+Section SrvToCli.
+  Variables (e : env) (P : tparams) (k t0 th : Z) (cli srv : conn) (p : list byte) (ucb : icb).
+  Hypothesis Hstart : live_start k t0 srv cli.
+  Hypothesis Henv : lenv_ok e.
+  Hypothesis Hlen : len p <= e_max_payload e.
+
+  Definition sinv (n : tnet) : Prop :=
+    LJ k (c_next_rid srv) (seq_succ (c_seq_msg srv)) p ucb (c_ka_interval cli) (c_send_interval cli)
+       th t0 (kmax srv) (tp_tau P) (c_seq_send srv) (c_incoming cli)
+       (t_srv n) (t_cli n) (t_sc n) (t_cs n) (t_tickS n) /\ t_swept n = false.
+
+  Let Hrid : 0 <= c_next_rid srv.
+  Proof. destruct Hstart as (_ & _ & _ & H & _). exact H. Qed.
+  Let Hmseq : 1 <= seq_succ (c_seq_msg srv) <= HALF.
+  Proof. exact (proj2 (start_mseq k t0 srv cli Hstart)). Qed.
+  Let HM : 0 <= kmax srv.
+  Proof. destruct Hstart as (_ & _ & _ & _ & _ & _ & _ & _ & H). exact H. Qed.
+
+  Lemma sinv_init : sinv (after_send e SSrv cli srv p ucb t0).
+  Proof.
+    unfold sinv, after_send, tnet0. cbn [t_cli t_srv t_cs t_sc t_tickS t_swept]. split; [|reflexivity].
+    pose proof (LJ_start e k t0 th (tp_tau P) srv cli p ucb Hstart Hlen) as H.
+    assert (Hs : c_seq_send (fst (send e srv p RTimeout ucb)) = c_seq_send srv)
+      by (rewrite (start_x1 e k t0 srv cli p ucb Hstart Hlen); reflexivity).
+    rewrite Hs. exact H.
+  Qed.
+
+  Lemma sinv_step n v : sinv n -> hok P SSrv th n v -> sinv (tstep e P n v).
+  Proof.
+    intros [I Isw] (Hclk & Htau & Hot & Hshort & (_ & Hopen) & Hsrc).
+    cbn [snd_tick fwd] in *.
+    destruct v as [now s|now s|now]; cbn [tev_time] in *; cbn [tstep].
+    - (* UdpClient.update of the receiver *)
+      destruct (client_tick e (t_cli n) now (rx_of (t_sc n) s)) as [c' o] eqn:E.
+      pose proof I as [A1 A2 A3 A4 A5 A6 A7 A8 A8' A9 A10 A11 A12 A13 A14 A15].
+      pose proof (eo_key _ _ _ _ A10) as Hky. rewrite Hky in Hsrc.
+      (* the state after the socket has been read *)
+      assert (Hrd : exists y1 o1,
+                 match rx_of (t_sc n) s with
+                 | RxNone => y1 = t_cli n /\ o1 = []
+                 | RxBadHeader _ => False
+                 | RxDgram dg orcs => recv (t_cli n) now dg orcs = (y1, o1)
+                 end /\ raised o1 = false /\ no_emit o1 /\
+                 LJ k (c_next_rid srv) (seq_succ (c_seq_msg srv)) p ucb (c_ka_interval cli) (c_send_interval cli)
+                    th t0 (kmax srv) (tp_tau P) (c_seq_send srv) (c_incoming cli)
+                    (t_srv n) y1 (wd_present (t_sc n) s) (t_cs n) (t_tickS n)).
+      { destruct s as [|i|dg orcs]; cbn [rx_of hsrc_ok] in *.
+        - exists (t_cli n), []. split; [auto|]. split; [reflexivity|]. split; [apply no_emit_nil|exact I].
+        - destruct Hsrc as (t & dg & Hl). rewrite Hl.
+          destruct (recv (t_cli n) now dg []) as [y1 o1] eqn:Er. exists y1, o1. split; [reflexivity|].
+          destruct (LJ_yrecv _ _ _ _ _ Hmseq _ _ _ _ _ _ _ _ _ _ _ _ _ _ _ _ _ _ _ _ I (wd_lookup_log _ _ _ _ Hl) Er) as (I' & Ra & Ne).
+          auto.
+        - rewrite (recv_junk k _ _ _ _ Hky Hsrc). eexists. eexists. split; [reflexivity|]. split; [reflexivity|].
+          split; [intros z [<-|[]]; reflexivity|].
+          eapply (LJ_ysame _ _ _ _ _ _ _ _ _ _ _ _ _ _ _ _ _ _ _ (SJunk dg orcs)); [exact I|sess_triv| |exact Logic.I].
+          exact (eo_quiet _ _ _ _ A10). }
+      destruct Hrd as (y1 & o1 & Hr & Ra & Ne & I1).
+      destruct (client_tick_Y e k _ _ _ _ _ _ _ _ _ A10 Hopen Hr Ra Ne (j_y _ _ _ _ _ _ _ _ _ _ _ _ _ _ _ _ _ _ I1) E)
+        as (Y1 & Y2 & Y3 & Y4 & Y5).
+      rewrite (eo_status _ _ _ _ Y1). cbn [status_eqb status_code Z.eqb Pos.eqb].
+      split; [|exact Isw]. cbn [t_cli t_srv t_cs t_sc t_tickS].
+      eapply LJ_ytick; eassumption.
+    - (* the server loop hands a datagram to the sending connection *)
+      rewrite Isw.
+      pose proof I as [A1 A2 A3 A4 A5 A6 A7 A8 A8' A9 A10 A11 A12 A13 A14 A15].
+      rewrite A3 in Hsrc.
+      destruct s as [|j|dg orcs]; cbn [rx_of hsrc_ok] in *.
+      + split; [exact I|exact Isw].
+      + destruct Hsrc as (t & dg & Hl). rewrite Hl.
+        destruct (recv (t_srv n) now dg []) as [c' o] eqn:E.
+        assert (Hka : ka_dgram k dg).
+        { destruct A11 as (g & _ & _ & _ & W4). apply (W4 j t dg). apply wd_lookup_log. exact Hl. }
+        destruct (recv_X k _ _ p ucb Hrid _ _ _ _ _ _ A1 A3 (or_introl Hka) E) as (X & _ & Ne).
+        rewrite (dg_no_emit _ Ne). split; [|exact Isw]. cbn [t_cli t_srv t_cs t_sc t_tickS wd_emit fold_left].
+        eapply (LJ_xrecv _ _ _ _ _ _ _ _ _ _ _ _ _ _ _ _ _ _ _ _ (SPeer j)); [exact I|exact X|].
+        left. exists j, t. apply wd_lookup_log. exact Hl.
+      + destruct (recv (t_srv n) now dg orcs) as [c' o] eqn:E.
+        destruct (recv_X k _ _ p ucb Hrid _ _ _ _ _ _ A1 A3 (or_intror Hsrc) E) as (X & _ & Ne).
+        rewrite (dg_no_emit _ Ne). split; [|exact Isw]. cbn [t_cli t_srv t_cs t_sc t_tickS wd_emit fold_left].
+        eapply (LJ_xrecv _ _ _ _ _ _ _ _ _ _ _ _ _ _ _ _ _ _ _ _ (SJunk dg orcs)); [exact I|exact X|].
+        right. rewrite (recv_junk k _ _ _ _ A3 Hsrc) in E. injection E as <- _. auto.
+    - (* the server loop's sweep: update() of the sending connection *)
+      rewrite Isw. unfold server_sweep.
+      pose proof I as [A1 A2 A3 A4 A5 A6 A7 A8 A8' A9 A10 A11 A12 A13 A14 A15].
+      rewrite A2. cbn [status_eqb status_code Z.eqb Pos.eqb].
+      destruct (server_tick e (t_srv n) now) as [c' o] eqn:E. rewrite Hopen.
+      pose proof (server_tick_X e k _ _ p ucb Hrid Hmseq Hlen Henv _ _ _ _ A1 A2 A3 A5 E) as T.
+      split; [|reflexivity]. cbn [t_cli t_srv t_cs t_sc t_tickS].
+      eapply (LJ_xtail _ _ _ _ _ _ _ _ _ _ _ _ _ HM); [exact I|exact T|exact Htau|exact Hshort].
+  Qed.
+
+  Lemma sinv_run vs : forall n, sinv n -> hvalid e P SSrv th n vs -> sinv (trun e P n vs).
+  Proof.
+    induction vs as [|v r IH]; intros n I Hv; [exact I|].
+    cbn [hvalid] in Hv. destruct Hv as [Hok Hr]. cbn [trun fold_left]. apply IH; [|exact Hr].
+    apply sinv_step; assumption.
+  Qed.
+
+  Theorem srv_to_cli_delivered hs now :
+    0 <= tp_d P ->
+    hvalid e P SSrv th (after_send e SSrv cli srv p ucb t0) hs ->
+    hnow P SSrv th (trun e P (after_send e SSrv cli srv p ucb t0) hs) now ->
+    Z.max th t0 + live_bound P srv < now ->
+    c_incoming (t_cli (trun e P (after_send e SSrv cli srv p ucb t0) hs))
+    = c_incoming cli ++ [(seq_succ (c_seq_msg srv), p)].
+  Proof.
+    intros Hd Hv (Hclk & Htau & Hot) Hlate.
+    destruct (sinv_run hs _ sinv_init Hv) as [[A1 A2 A3 A4 A5 A6 A7 A8 A8' A9 A10 A11 A12 A13 A14 A15] _].
+    cbn [snd_tick fwd] in *. unfold live_bound in Hlate.
+    destruct A15 as [H|[(i & t & dg & P1 & P2 & P3 & P4)|[H1 H2]]]; [exact H| |]; exfalso.
+    - unfold on_time_from in Hot. rewrite Forall_forall in Hot. specialize (Hot _ P2). cbn [snd] in Hot. lia.
+    - lia.
+  Qed.
+
+  Theorem srv_to_cli_at_most_once hs :
+    hvalid e P SSrv th (after_send e SSrv cli srv p ucb t0) hs ->
+    let n := trun e P (after_send e SSrv cli srv p ucb t0) hs in
+    c_incoming (t_cli n) = c_incoming cli \/ c_incoming (t_cli n) = c_incoming cli ++ [(seq_succ (c_seq_msg srv), p)].
+  Proof.
+    intros Hv n. destruct (sinv_run hs _ sinv_init Hv) as [[A1 A2 A3 A4 A5 A6 A7 A8 A8' A9 A10 A11 A12 A13 A14 A15] _].
+    destruct A12 as [[H _]|[H _]]; [right|left]; exact H.
+  Qed.
+
+  Theorem srv_to_cli_done_means_delivered hs :
+    hvalid e P SSrv th (after_send e SSrv cli srv p ucb t0) hs ->
+    let n := trun e P (after_send e SSrv cli srv p ucb t0) hs in
+    zmem (c_next_rid srv) (c_done (t_srv n)) = true ->
+    c_incoming (t_cli n) = c_incoming cli ++ [(seq_succ (c_seq_msg srv), p)].
+  Proof.
+    intros Hv n. destruct (sinv_run hs _ sinv_init Hv) as [[A1 A2 A3 A4 A5 A6 A7 A8 A8' A9 A10 A11 A12 A13 A14 A15] _].
+    exact A13.
+  Qed.
+End SrvToCli.
